@@ -1,5 +1,6 @@
 import PytezosModel.Proofs.InterpGood
 import PytezosModel.Proofs.InterpGoodColl
+set_option linter.unusedSectionVars false   -- `[Mode]` is a section variable of every lemma here; some do not use it
 /-! Progress for the rules without sub-programs: on a well-typed stack (`StackWF`, `GoodStack`) on which the typing rule
 of the instruction applies, the reference rule is not stuck, and its result stack satisfies `GoodStack` again
 (`Res.Safe GoodStack`).  One lemma `safe_<I>` per instruction form, collected in `step_safe`. -/
@@ -7,6 +8,7 @@ of the instruction applies, the reference rule is not stuck, and its result stac
 set_option linter.unusedSectionVars false
 
 namespace Interp
+variable [Mode]
 open Typing
 
 /-- expose the top of the stack and its type; discard the types on which the typing rule does not apply -/
@@ -194,6 +196,7 @@ end Interp
 
 -- binary rules --------------------------------------------------------------------------------------------------
 namespace Interp
+variable [Mode]
 open Typing
 
 def isNum (t : Ty) : Prop := t = .int ∨ t = .nat ∨ t = .mutez ∨ t = .timestamp
@@ -375,6 +378,7 @@ end Interp
 
 -- sets and maps -------------------------------------------------------------------------------------------------
 namespace Interp
+variable [Mode]
 open Typing
 
 theorem memV_safe (a b : Val) (t : Ty) (hwa : WF a) (hwb : WF b) (_ : litOk a = true) (hgb : litOk b = true)
@@ -540,6 +544,7 @@ end Interp
 
 -- comparison, lists, lambdas, strings -----------------------------------------------------------------------------
 namespace Interp
+variable [Mode]
 open Typing
 
 theorem compare_isSome {k : Ty} {a b : Val} (ha : isKey k a = true) (hb : isKey k b = true) : ∃ c, Spec.compare a b = some c := by
